@@ -343,6 +343,12 @@ func VerifC01_BoltV2Slow() {
 		return
 	}
 	wire := append([]byte{}, out.Bytes()...)
+	// a retry encodes the same frame object again: it must come out the same
+	out2, err2 := boltv2Protocol{}.Encode(ctx, frame)
+	verif.Assert(err2 == nil && out2 != nil, "second encode of the same frame failed")
+	if out2 != nil {
+		verif.Assert(string(out2.Bytes()) == string(wire), "encoding the same modified frame a second time (a retry) gives different bytes")
+	}
 	frame2, err := boltv2Protocol{}.Decode(zzCtx(), buffer.NewIoBufferBytes(verif.WithStaleCap(wire, 64)))
 	verif.Assert(frame2 != nil && err == nil, "re-encoded frame does not decode")
 	if frame2 == nil {
@@ -468,4 +474,53 @@ func VerifC01_BoltV2HeaderOverflow() {
 		verif.Assert(ok && len(v) == vlen, "the long header value did not survive the re-encode")
 	}
 	verif.Cover("encoded")
+}
+
+// VerifC01_BoltV2FastRetry: an unmodified request is forwarded, the connection
+// gives the written buffer back to the buffer pool (as connection.Write does),
+// other traffic takes buffers from the pool and fills them, and then the same
+// request frame is forwarded again under a new id (a retry). The retry's
+// bytes are the original frame's bytes with the new id - not whatever now
+// lives in a recycled buffer.
+func VerifC01_BoltV2FastRetry() {
+	verif.PoolReuse(true)
+	f := zzFrame("f", true)
+	orig := append([]byte{}, f...)
+	rb := verif.WithStaleCap(f, 64)
+	ctx := zzCtx()
+	frame, err := boltv2Protocol{}.Decode(ctx, buffer.NewIoBufferBytes(rb))
+	verif.Assert(frame != nil && err == nil, "well-formed frame must decode")
+	if frame == nil {
+		return
+	}
+	id := verif.U64("id")
+	frame.(api.XFrame).SetRequestId(id)
+	verif.Havoc(rb)
+	out, err := boltv2Protocol{}.Encode(ctx, frame)
+	verif.Assert(err == nil && out != nil, "encode of an unmodified frame failed")
+	if out == nil {
+		return
+	}
+	zzCheckForwarded(out.Bytes(), orig, id)
+	buffer.PutIoBuffer(out) // the connection has written it
+	for k := 0; k < 2; k++ {
+		other := buffer.GetIoBuffer(len(orig))
+		other.Write(verif.Bytes("other", 4))
+	}
+	id2 := verif.U64("id2")
+	frame.(api.XFrame).SetRequestId(id2)
+	out2, err := boltv2Protocol{}.Encode(ctx, frame)
+	verif.Assert(err == nil && out2 != nil, "second encode of an unmodified frame failed")
+	if out2 == nil {
+		return
+	}
+	zzCheckForwarded(out2.Bytes(), orig, id2)
+	verif.Cover("end")
+}
+
+// the same exploration decides the id clause of C02: the retried request goes
+// out with its own payload under its own new id
+func VerifC02_BoltV2FastRetry() {
+	VerifC01_BoltV2FastRetry()
+	verif.Cover("c02")
 }
